@@ -188,6 +188,28 @@ impl SnmpV3ClientSocket {
     }
 }
 
+impl SnmpV3ClientSocket {
+    /// Check the message authentication code of the incoming message:
+    /// recalculate it over the datagram with zeroed msgAuthenticationParameters.
+    fn is_authentic(&self, raw: &[u8], auth_params: &[u8]) -> bool {
+        let placeholder = self.auth_key.placeholder();
+        if !self.auth_key.has_auth() || auth_params.len() != placeholder.len() {
+            return false;
+        }
+        // auth_params is the slice of raw
+        let offset = (auth_params.as_ptr() as usize).wrapping_sub(raw.as_ptr() as usize);
+        if offset > raw.len() || raw.len() - offset < auth_params.len() {
+            return false;
+        }
+        let mut data = raw.to_vec();
+        data[offset..offset + placeholder.len()].copy_from_slice(placeholder);
+        if self.auth_key.sign(&mut data, offset).is_err() {
+            return false;
+        }
+        &data[offset..offset + placeholder.len()] == auth_params
+    }
+}
+
 impl SnmpSocket for SnmpV3ClientSocket {
     type Message<'a> = SnmpV3Message<'a>;
 
@@ -244,7 +266,19 @@ impl SnmpSocket for SnmpV3ClientSocket {
         self.auth_key.sign(buf.data_mut(), offset)
     }
 
-    fn unwrap_pdu<'a>(&'a mut self, msg: Self::Message<'a>) -> Option<SnmpPdu<'a>> {
+    fn unwrap_pdu<'a>(
+        &'a mut self,
+        msg: Self::Message<'a>,
+        raw: &'a [u8],
+    ) -> Option<SnmpPdu<'a>> {
+        // RFC 3414 pp. 3.2: authenticate incoming message
+        let authenticated = msg.flag_auth && self.is_authentic(raw, msg.usm.auth_params);
+        if msg.flag_auth && !authenticated {
+            return None; // Wrong digest
+        }
+        // Only reports may have the lower security level than ours
+        let insecure = (self.auth_key.has_auth() && !authenticated)
+            || (self.priv_key.has_priv() && !matches!(msg.data, MsgData::Encrypted(_)));
         // Get and decode scoped pdu
         let data = match msg.data {
             MsgData::Plaintext(x) => x,
@@ -259,6 +293,9 @@ impl SnmpSocket for SnmpV3ClientSocket {
             && self.msg_id.check(msg.msg_id)
             && data.pdu.check(&self.request_id))
         {
+            return None;
+        }
+        if insecure && !matches!(data.pdu, SnmpPdu::Report(_)) {
             return None;
         }
         // Update engine parameters
